@@ -11,7 +11,8 @@
    database model's own step has the model's new rows as its target, so the completed script leaves
    exactly the database's new logical contents on disk (for inserts: stored field values not NaN). *)
 From Coq Require Import List ZArith NArith Bool.
-From TF Require Import Base Query Index DB Codec Csv Text IO proofs.CodecP proofs.CsvP proofs.TextP proofs.IOP proofs.PlanP proofs.HistoryP.
+From TF Require Import Base Query Index DB Codec Csv Text IO proofs.CodecP proofs.CsvP proofs.TextP proofs.IOP proofs.PlanP proofs.HistoryP proofs.IOGenP.
+From TF Require gen.IOGen.
 Import ListNotations.
 
 Theorem C04_disk_is_target : forall old p,
@@ -47,9 +48,24 @@ Theorem C04_history_leaves_contents : forall E C norm ops s, insert_ok E C norm 
   w_disk w = st_rows (state_after E C norm s ops) /\ clean w.
 Proof. exact history_file. Qed.
 
+(* the I/O calls REGENERATED from tinyflux/storages.py on every run (gen/IOGen.v: symbolic execution of CSVStorage.append, _write([]) / reset,
+   _init_temp_storage, _swap_temp_with_primary, _cleanup_temp_storage, __iter__ along their success path) are the scripts of the model, for every
+   plan of an operation: every theorem of this file about script_of is a theorem about the calls the source makes now *)
+Theorem C04_source_scripts_are_the_model : forall old p, gen_script_of old p = script_of old p.
+Proof. exact gen_script_of_eq. Qed.
+(* ... and every handle is opened with the storage's own text options: the temporary file and the handle reopened after a rewrite use the
+   storage's encoding, newline translation stays off, the temporary file stays until it is removed, the reopen never truncates *)
+Theorem C04_source_handles_keep_text_options :
+  IOGen.temp_uses_storage_encoding = true /\ IOGen.temp_untranslated_newlines = true /\ IOGen.temp_kept_until_removed = true /\
+  IOGen.reopen_uses_storage_encoding = true /\ IOGen.reopen_uses_storage_newline = true /\ IOGen.reopen_never_truncates = true /\
+  IOGen.reopen_same_file = true /\ IOGen.open_uses_given_options = true /\ IOGen.newline_default_untranslated = true.
+Proof. exact gen_handle_options. Qed.
+
 Print Assumptions C04_disk_is_target.
 Print Assumptions C04_history_leaves_contents.
 Print Assumptions C04_operation_leaves_new_contents.
 Print Assumptions C04_file_decodes.
 Print Assumptions C04_append_decodes.
 Print Assumptions C04_csv_write_app.
+Print Assumptions C04_source_scripts_are_the_model.
+Print Assumptions C04_source_handles_keep_text_options.
